@@ -103,6 +103,7 @@ typedef M2::Root<H2, X2, Y2, Z2> FSM2;
 
 static Pay mkPay(unsigned v) { Pay p; p.a = static_cast<int32_t>(v); memset(p.b, 0, sizeof p.b); memcpy(p.b, &v, sizeof v); return p; }
 static unsigned payOf(const FSM2::Transition& t) { return t.payload() ? static_cast<unsigned>(t.payload()->a & 0xff) : 255u; }
+template <typename TTransition> static unsigned payOf2(const TTransition& t) { return t.payload() ? static_cast<unsigned>(t.payload()->a & 0xff) : 255u; }
 
 template <unsigned ID>
 struct S2 : FSM2::State {
@@ -181,7 +182,17 @@ struct H5 : FSM5::State {
 };
 template <unsigned ID>
 struct S5 : FSM5::State {
-	void entryGuard(GuardControl& c) { Ctx& x = *c.context(); x.trace->add("5eg", ID, c.pendingTransition().destination, c.pendingTransition().origin); if (x.rng->below(9) == 0) c.cancelPendingTransition(); }
+	template <typename TControl> static unsigned planLen(TControl& c) { unsigned n = 0; for (auto it = c.plan().begin(); it; ++it) ++n; return n; }
+	void entryGuard(GuardControl& c) {
+		Ctx& x = *c.context();
+		const GuardControl& cc = c;
+		x.trace->add("5eg", ID, c.pendingTransition().destination, c.pendingTransition().origin);
+		x.trace->add("5Gpl", planLen(c), planLen(cc), static_cast<bool>(cc.plan()) ? 1 : 0);
+		if (x.rng->below(9) == 0) c.cancelPendingTransition();
+	}
+	void exitGuard(GuardControl& c) { c.context()->trace->add("5xg", ID, planLen(c), 0); if (c.context()->rng->below(11) == 0) c.succeed(); }
+	void react(const Event&, FullControl& c) { const FullControl& cc = c; c.context()->trace->add("5Fpl", ID, planLen(c), planLen(cc)); if (c.context()->rng->below(4) == 0) c.fail<R1>(); else if (c.context()->rng->below(4) == 0) c.succeed<R2>(); }
+	void exit(PlanControl& c) { const PlanControl& cc = c; c.context()->trace->add("5ex", ID, planLen(c), planLen(cc)); }
 	void enter(PlanControl& c) {
 		Ctx& x = *c.context();
 		x.trace->add("5en", ID, c.currentTransition().destination, c.currentTransition().origin);
@@ -198,9 +209,32 @@ struct S5 : FSM5::State {
 		else if (r == 5) c.changeTo(static_cast<ffsm2::StateID>(x.rng->below(4)));
 		else if (r == 6) { unsigned n = 0; for (auto it = c.plan().begin(); it; ++it, ++n) if (n == 1) it.remove(); }
 	}
-	void exit(PlanControl& c) { c.context()->trace->add("5ex", ID, 0, 0); }
 };
 struct R0 : S5<0> {}; struct R1 : S5<1> {}; struct R2 : S5<2> {}; struct R3 : S5<3> {};
+#endif
+
+#ifdef SCN_USE_HISTORY
+// reads the history through every control flavour a callback can be handed
+typedef ffsm2::MachineT<ffsm2::Config::ContextT<Ctx*>::ManualActivation::PayloadT<Pay> > M7;
+struct H7; struct V0; struct V1; struct V2;
+typedef M7::Root<H7, V0, V1, V2> FSM7;
+template <unsigned ID>
+struct S7 : FSM7::State {
+	static unsigned dest(const FSM7::Transition& t) { return t ? t.destination : 254u; }
+	static unsigned pay(const FSM7::Transition& t) { return t.payload() ? static_cast<unsigned>(t.payload()->a & 0xff) : 255u; }
+	void entryGuard(GuardControl& c) { c.context()->trace->add("7Geg", ID, dest(c.previousTransitions()), pay(c.previousTransitions())); }
+	void exitGuard(GuardControl& c) { c.context()->trace->add("7Gxg", ID, dest(c.previousTransitions()), c.previousTransitions().origin); }
+	void enter(PlanControl& c) { c.context()->trace->add("7Pen", ID, dest(c.previousTransitions()), dest(c.currentTransition())); }
+	void reenter(PlanControl& c) { c.context()->trace->add("7Pre", ID, dest(c.previousTransitions()), pay(c.currentTransition())); }
+	void exit(PlanControl& c) { c.context()->trace->add("7Pex", ID, dest(c.previousTransitions()), 0); }
+	void update(FullControl& c) {
+		c.context()->trace->add("7Fup", ID, dest(c.previousTransitions()), pay(c.previousTransitions()));
+		if (c.context()->rng->below(3) == 0) { const ffsm2::StateID d = static_cast<ffsm2::StateID>(c.context()->rng->below(3)); const Pay p = mkPay(c.context()->rng->below(200)); c.changeWith(d, p); }
+	}
+	void react(const Event&, FullControl& c) { c.context()->trace->add("7Frc", ID, dest(c.previousTransitions()), c.previousTransitions().origin); }
+	void query(Event& e, ConstControl& c) const { e.value += dest(c.previousTransitions()); c.context()->trace->add("7Cqu", ID, dest(c.previousTransitions()), pay(c.previousTransitions())); }
+};
+struct H7 : S7<9> {}; struct V0 : S7<0> {}; struct V1 : S7<1> {}; struct V2 : S7<2> {};
 #endif
 
 #ifdef SCN_USE_LOG
@@ -394,6 +428,26 @@ int main(int argc, char** argv) {
 			replica.exit();
 			m.exit();
 			trace.add("7of", m.previousTransition() ? 1 : 0, replica.previousTransition() ? 1 : 0, 0);
+		}
+	}
+#endif
+#ifdef SCN_USE_HISTORY
+	{
+		Ctx ctx = { &trace, &cbRng, 9 };
+		FSM7::Instance m(&ctx);
+		for (unsigned round = 0; round < 4; ++round) {
+			m.enter();
+			for (unsigned step = 0; step < 150; ++step) {
+				const unsigned op = drv.below(6);
+				if (op < 2) m.update();
+				else if (op == 2) { Event e = { 1 }; m.react(e); }
+				else if (op == 3) { Event e = { 0 }; static_cast<const FSM7::Instance&>(m).query(e); trace.add("7qr", e.value, 0, 0); }
+				else if (op == 4) m.immediateChangeTo(static_cast<ffsm2::StateID>(drv.below(3)));
+				else { const ffsm2::StateID d = static_cast<ffsm2::StateID>(drv.below(3)); const Pay p = mkPay(drv.below(200)); m.changeWith(d, p); }
+				const FSM7::Transition& pt = m.previousTransition();
+				trace.add("7ob", m.activeStateId(), pt ? pt.destination : 254, payOf2(pt));
+			}
+			m.exit();
 		}
 	}
 #endif
